@@ -400,6 +400,8 @@ theorem assertApplies_fail (mt : Str → Str → Bool) (g : PGraph Str) (r : Rul
   · simp only at h
     split at h
     · simp at h
+    split at h
+    · simp at h
     · split at h
       · simp at h
       · split at h
